@@ -51,8 +51,10 @@ def vrows(job):
 
 # ---- concretisation of an abstract epoch:version-release triple -----------
 
-def evr_dict(x, name="pkg"):
-    d = {"name": name, "version": text(x["v"]), "release": text(x["r"]), "arch": "x86_64"}
+def evr_dict(x, name="pkg", arch="x86_64"):
+    d = {"name": name, "version": text(x["v"]), "release": text(x["r"])}
+    if arch:
+        d["arch"] = arch                   # "" = the package carries no architecture
     if x["e"]:
         d["epoch"] = text(x["e"])          # "(none)" is passed through as rpm prints it
     return d
@@ -67,7 +69,7 @@ def line_of(d):
     v, r, e = d["version"], d["release"], d.get("epoch", "0")
     if not v or not r or not (set(v) | set(r)) <= SAFE or not e.isdigit():
         return None
-    return "%s-%s:%s-%s.%s" % (d["name"], e, v, r, d["arch"])
+    return "%s-%s:%s-%s%s" % (d["name"], e, v, r, ("." + d["arch"]) if d.get("arch") else "")
 
 
 class OwnRpm(InstalledRpm):
@@ -88,11 +90,16 @@ def rpm_class(name):
 CLASS_PAIRS = [("InstalledRpm", "InstalledRpm"), ("YumListRpm", "InstalledRpm"), ("InstalledRpm", "YumListRpm"),
                ("YumListRpm", "YumListRpm")]
 OWN_PAIRS = [("OwnRpm", "InstalledRpm"), ("InstalledRpm", "OwnRpm"), ("OwnRpm", "YumListRpm")]
+# architecture of the left / right operand ("" = none): one more declared dimension of the case.  The
+# class pairings above are run with x86_64 on both sides; every row is also run with one of these
+# (by row number), alternately on plain InstalledRpm and on YumListRpm x InstalledRpm operands.
+ARCH_PAIRS = [("x86_64", "i686"), ("noarch", "x86_64"), ("", "x86_64"), ("i686", ""), ("", ""), ("i686", "i686"),
+              ("i686", "noarch")]
 
 
-def make_rpm(x, variant, cls=InstalledRpm):
+def make_rpm(x, variant, cls=InstalledRpm, arch="x86_64"):
     """Build a package object of class cls for the triple through one of the public constructors."""
-    d = evr_dict(x)
+    d = evr_dict(x, arch=arch)
     k = variant % 3
     if k == 1:
         return cls.from_json(json.dumps(d))
@@ -100,7 +107,7 @@ def make_rpm(x, variant, cls=InstalledRpm):
         ln = line_of(d)
         if ln is not None:
             p = cls.from_package(ln)
-            if (p.version, p.release, p.name) == (d["version"], d["release"], d["name"]):
+            if (p.version, p.release, p.name, p.arch or "") == (d["version"], d["release"], d["name"], arch):
                 STATS["line_format"] += 1
                 return p
     return cls(d)
@@ -137,26 +144,35 @@ def yum_row(d, n):
     return "%s.%s   %s%s-%s   @ix%d" % (d["name"], d["arch"], (e + ":") if e is not None else "", v, r, n)
 
 
-def container(via, ds):
-    """An RpmList holding the packages ds (in this order) built the way `via` says, or None when that
-    format cannot carry them.  Every package object can be mapped back to its position (tag_of)."""
+def content_of(via, ds):
+    """Lines of command output carrying the packages ds (in this order, with their positions), or None
+    when that format cannot carry them."""
     if via == "json":
-        return InstalledRpms(context_wrap("\n".join(json.dumps(dict(d, vix=n + 1)) for n, d in enumerate(ds))))
+        return [json.dumps(dict(d, vix=n + 1)) for n, d in enumerate(ds)]
     if via == "line":
         lines = [line_of(d) for d in ds]
         if any(ln is None for ln in lines):
             return None
         # the position travels in the first sosreport column (installtime)
-        return InstalledRpms(context_wrap("\n".join("%s    ix%d" % (ln, n + 1) for n, ln in enumerate(lines))))
-    if via in ("yum-installed", "yum-available"):
-        rows = [yum_row(d, n + 1) for n, d in enumerate(ds)]
-        if any(r is None for r in rows):
+        return ["%s    ix%d" % (ln, n + 1) for n, ln in enumerate(lines)]
+    rows = [yum_row(d, n + 1) for n, d in enumerate(ds)]
+    if any(r is None for r in rows):
+        return None
+    return ["Loaded plugins: product-id, subscription-manager",
+            "Installed Packages" if via == "yum-installed" else "Available Packages"] + rows
+
+
+def container(via, ds):
+    """An RpmList holding the packages ds (in this order) built the way `via` says, or None when that
+    format cannot carry them.  Every package object can be mapped back to its position (tag_of)."""
+    if via in ("json", "line", "yum-installed", "yum-available"):
+        lines = content_of(via, ds)
+        if lines is None:
             return None
+        if via in ("json", "line"):
+            return InstalledRpms(context_wrap("\n".join(lines)))
         from insights.parsers.yum_list import YumListAvailable, YumListInstalled
-        head = ["Loaded plugins: product-id, subscription-manager",
-                "Installed Packages" if via == "yum-installed" else "Available Packages"]
-        cls = YumListInstalled if via == "yum-installed" else YumListAvailable
-        return cls(context_wrap("\n".join(head + rows)))
+        return (YumListInstalled if via == "yum-installed" else YumListAvailable)(context_wrap("\n".join(lines)))
     if via == "mixin":
         return OwnRpmList({"pkg": [InstalledRpm(dict(d, vix=n + 1)) for n, d in enumerate(ds)]})
     if via == "extended":
@@ -166,6 +182,25 @@ def container(via, ds):
             rpms.packages.setdefault("pkg", []).append(InstalledRpm(dict(d, vix=n)))
         return rpms
     raise ValueError("driver: unknown container kind %r" % via)
+
+
+def extend(c, via, ds, ds2, turn):
+    """The holder c (already asked) gets more packages: ds2 after ds.  Returns how: 'reparse' = a second
+    parse_content() on the same parser object with the longer output, 'append' / 'insert' = its user
+    adds package objects to the public packages[name] list (at the end / at the front)."""
+    if via in ("json", "line", "yum-installed", "yum-available") and turn % 3 == 0:
+        lines = content_of(via, ds + ds2)
+        if lines is not None:
+            c.parse_content(lines)
+            return "reparse"
+    how = "insert" if turn % 3 == 1 else "append"
+    for n, d in enumerate(ds2, len(ds) + 1):
+        p = InstalledRpm(dict(d, vix=n))
+        if how == "insert":
+            c.packages.setdefault("pkg", []).insert(0, p)
+        else:
+            c.packages.setdefault("pkg", []).append(p)
+    return how
 
 
 def tag_of(p):
@@ -181,12 +216,25 @@ def tag_of(p):
     return 0
 
 
-def select(evrs, idxs):
-    """newest / oldest / get_max / get_min on every kind of RpmList that can hold the packages.
+def lookups(c, ev):
+    for key, name in (("mx", "newest"), ("mn", "oldest"), ("gmx", "get_max"), ("gmn", "get_min")):
+        try:
+            ev[key] = tag_of(getattr(c, name)("pkg"))
+        except Exception:
+            STATS["raised"] += 1
+            ev[key] = -1
+        STATS["sel_calls"] += 1
+
+
+def select(evrs, idxs, more, turn):
+    """newest / oldest / get_max / get_min on every kind of RpmList that can hold the packages, then a
+    short history: the same holder gets the packages `more` as well and is asked again (second event,
+    via = '<kind>+<how it was extended>', pk = everything it lists now).
     Whatever the code under test does (including raising) becomes a recorded observation:
-    n = number of the generated packages the container holds (-1: building it raised),
+    n = number of the generated packages the container holds (-1: building / extending it raised),
     results = position of the returned object (0: not one of the packages, -1: raised)."""
     ds = [evr_dict(evrs[i - 1]) for i in idxs]
+    ds2 = [evr_dict(evrs[i - 1]) for i in more]
     events = []
     for via in VIAS:
         ev = {"ev": "sel", "via": via, "pk": idxs, "n": -1, "mx": -1, "mn": -1, "gmx": -1, "gmn": -1}
@@ -202,21 +250,32 @@ def select(evrs, idxs):
         if held != list(range(1, len(ds) + 1)) and via in ("line", "yum-installed", "yum-available"):
             continue                         # the text format did not carry the packages: not a C13 observation
         ev["n"] = len([t for t in held if t > 0])
-        for key, name in (("mx", "newest"), ("mn", "oldest"), ("gmx", "get_max"), ("gmn", "get_min")):
-            try:
-                ev[key] = tag_of(getattr(c, name)("pkg"))
-            except Exception:
-                STATS["raised"] += 1
-                ev[key] = -1
-            STATS["sel_calls"] += 1
+        lookups(c, ev)
         STATS["sel_" + via] = STATS.get("sel_" + via, 0) + 1
         events.append(ev)
+        if not ds2:
+            continue
+        ev2 = {"ev": "sel", "via": via + "+extended", "first": len(idxs), "pk": idxs + more, "n": -1, "mx": -1, "mn": -1, "gmx": -1, "gmn": -1}
+        try:
+            how = extend(c, via, ds, ds2, turn)
+            ev2["via"] = via + "+" + how
+            held = sorted(tag_of(p) for p in c.packages.get("pkg", []))
+        except Exception:
+            STATS["raised"] += 1
+            events.append(ev2)
+            continue
+        if held != list(range(1, len(ds) + len(ds2) + 1)) and how == "reparse" and via != "json":
+            continue
+        ev2["n"] = len([t for t in held if t > 0])
+        lookups(c, ev2)
+        STATS["again_" + how] = STATS.get("again_" + how, 0) + 1
+        events.append(ev2)
     return events
 
 
-def safe_rpm(x, variant, cls="InstalledRpm"):
+def safe_rpm(x, variant, cls="InstalledRpm", arch="x86_64"):
     try:
-        p = make_rpm(x, variant, rpm_class(cls))
+        p = make_rpm(x, variant, rpm_class(cls), arch)
         if type(p) is not rpm_class(cls):
             raise TypeError("constructor returned %r" % type(p))
         return p
@@ -230,21 +289,32 @@ def erows(job):
     case: lc / rc = class of the left / right operand); left and right operands are distinct objects."""
     evrs = job["evrs"]
     variant = job.get("variant", 0)
-    classes = sorted(set(c for pr in CLASS_PAIRS + OWN_PAIRS for c in pr))
-    left = dict((c, [safe_rpm(x, variant + n, c) for n, x in enumerate(evrs)]) for c in classes)
-    right = dict((c, [safe_rpm(x, variant + n + 1, c) for n, x in enumerate(evrs)]) for c in classes)
+    made = {}
+
+    def objs(side, cls, arch):
+        k = (side, cls, arch)
+        if k not in made:
+            made[k] = [safe_rpm(x, variant + n + side, cls, arch) for n, x in enumerate(evrs)]
+        return made[k]
     events = []
     for i in job["rows"]:
-        for lc, rc in CLASS_PAIRS + (OWN_PAIRS if i % 3 == 0 else []):
-            a = left[lc][i - 1]
-            cmp_ = [call(rpm_version_compare, a, b) for b in right[rc]]
-            o = [ops(a, b) for b in right[rc]]
+        cases = [(lc, rc, "x86_64", "x86_64") for lc, rc in CLASS_PAIRS + (OWN_PAIRS if i % 3 == 0 else [])]
+        la, ra = ARCH_PAIRS[i % len(ARCH_PAIRS)]
+        cases.append((("InstalledRpm", "InstalledRpm") if (i // len(ARCH_PAIRS)) % 2 == 0
+                      else ("YumListRpm", "InstalledRpm")) + (la, ra))
+        for lc, rc, la, ra in cases:
+            a = objs(0, lc, la)[i - 1]
+            right = objs(1, rc, ra)                      # distinct objects from the left ones
+            cmp_ = [call(rpm_version_compare, a, b) for b in right]
+            o = [ops(a, b) for b in right]
             STATS["evr_calls"] += len(cmp_)
             STATS["op_calls"] += 6 * len(o)
             STATS["pair_%s_%s" % (lc, rc)] = STATS.get("pair_%s_%s" % (lc, rc), 0) + len(o)
-            events.append({"ev": "erow", "a": i, "lc": lc, "rc": rc, "cmp": cmp_, "ops": o})
-    for idxs in job.get("sel", []):
-        events.extend(select(evrs, idxs))
+            STATS["arch_%s_%s" % (la or "none", ra or "none")] = STATS.get("arch_%s_%s" % (la or "none", ra or "none"), 0) + len(o)
+            events.append({"ev": "erow", "a": i, "lc": lc, "rc": rc, "la": la, "ra": ra, "cmp": cmp_, "ops": o})
+    sel = job.get("sel", [])
+    for n, idxs in enumerate(sel):
+        events.extend(select(evrs, idxs, sel[(n + 1) % len(sel)] if len(sel) > 1 else [], n))
     return {"id": job["id"], "strs": [], "evrs": evrs, "events": events}
 
 
